@@ -100,10 +100,10 @@ def _w_conj(res, p):
     def fn(ex, records):
         A = build_operand(p["A"], V)
         before = PL.cmap_of(A)
-        snap = [(dict(t._ops), t.coefficient) for t in A.terms]
+        snap = [(dict(t.operations), t.coefficient) for t in A.terms]
         R = hermitian_conjugated(A)
         records.append(("conjugate-denotes-adjoint",) + _cm_close(ex, PL.cmap_of(R), PL.cm_conj(before), TOL))
-        now = [(dict(t._ops), t.coefficient) for t in A.terms]
+        now = [(dict(t.operations), t.coefficient) for t in A.terms]
         same = len(now) == len(snap) and all(a[0] == b[0] and a[1] is b[1] for a, b in zip(now, snap))
         records.append(("argument-unchanged",) + ex.prove(z3.BoolVal(bool(same))))
         return R
@@ -744,6 +744,6 @@ def replay(data):
 def _merge(A):
     out = {}
     for t in A.terms:
-        k = PL.key(t._ops)
+        k = PL.key(dict(t.operations))
         out[k] = out.get(k, 0) + complex(t.coefficient)
     return out
